@@ -1303,7 +1303,8 @@ func nlWorker(tier string, seed int64, from int, reportPath string) {
 	can := startCanary()
 	defer can.close()
 	nGeneral := nlCaseCount(tier)
-	total := nGeneral + nlDirectedCount(tier)
+	nDirected := nlDirectedCount(tier)
+	total := nGeneral + nDirected + nlExtraCount(tier)
 	only := -1
 	if v := os.Getenv("VERIF_NL_ONLY"); v != "" { // debugging aid only
 		only, _ = strconv.Atoi(v)
@@ -1323,7 +1324,9 @@ func nlWorker(tier string, seed int64, from int, reportPath string) {
 					col.violation(fmt.Sprintf("nl-%d", i), map[string]interface{}{"case": cs, "panic": fmt.Sprint(r)}, "panic: %v", r)
 				}
 			}()
-			if i >= nGeneral {
+			if i >= nGeneral+nDirected {
+				clean = nlRunExtra(col, seed, i-nGeneral-nDirected, can)
+			} else if i >= nGeneral {
 				clean = nlRunDirected(col, nlGenDirCase(seed, i-nGeneral), can)
 			} else {
 				clean = nlRunCase(col, cs, can)
@@ -1698,7 +1701,7 @@ func checkNetListener(c *checkCtx) {
 	c.assume("conns are closed by the goroutine that uses them; Close concurrent with a blocked Read of the same conn is not exercised")
 	c.assume("Accept after listener.Close may still hand out backlog entries; Read/Write after Close are only called while the listener's reference keeps the session alive (F2)")
 	nGeneral := nlCaseCount(c.tier)
-	total := nGeneral + nlDirectedCount(c.tier)
+	total := nGeneral + nlDirectedCount(c.tier) + nlExtraCount(c.tier)
 	from := 0
 	respawns := 0
 	for from < total && respawns < 8 {
@@ -1804,4 +1807,182 @@ func nlPanicLine(stderr string) string {
 		}
 	}
 	return tailString(stderr, 300)
+}
+
+// ---------------------------------------------------------------------------------------------
+// further directed scenarios
+//
+//	even k: one accepted conn is closed by several goroutines at the same time (a watchdog and the handler's deferred Close)
+//	        while another conn of the same session stays open: the session must stay alive as long as that conn is open and
+//	        must end once the listener and the last conn are closed;
+//	odd k:  the listener is closed while a client's session handshake is in flight: the client must not be left with a
+//	        live session nobody serves.
+func nlExtraCount(tier string) int {
+	if tier == "thorough" {
+		return 400
+	}
+	return 12
+}
+
+func nlRunExtra(col *nlCol, seed int64, k int, can *canary) (clean bool) {
+	name := fmt.Sprintf("nl-extra-%d", k)
+	rng := caseRand(seed, 1990000+k)
+	path := filepath.Join(sockDir(), fmt.Sprintf("nlx-%d-%d.sock", os.Getpid(), k))
+	_ = os.Remove(path)
+	ln, err := Listen(path)
+	if err != nil {
+		col.inconclusive(name, "Listen: "+err.Error())
+		return true
+	}
+	defer os.Remove(path)
+	l := ln.(*listener)
+	if k%2 == 1 {
+		conn, err := net.Dial("unix", path)
+		if err != nil {
+			ln.Close()
+			col.inconclusive(name, "dial: "+err.Error())
+			return true
+		}
+		// the listener has accepted the raw connection and waits for the client's first handshake message
+		time.Sleep(time.Duration(5+rng.Intn(60)) * time.Millisecond)
+		ln.Close()
+		conf, _ := newTestConfig(pairOpt{bufCap: 2 << 20, initTO: 5 * time.Second, memfd: k%4 == 1})
+		can.reset()
+		cli, err := newSession(conf, conn, true)
+		col.count("extra: listener closed while a handshake was in flight", 1)
+		col.nontrivial(fmt.Sprintf("extra/close-during-handshake/%v", err == nil))
+		if err != nil {
+			return true // refused on the client as well: fine
+		}
+		ended := waitUntil(5*time.Second, func() bool { fenceOnce(5 * time.Second); return cli.IsClosed() })
+		if !ended && can.healthy(300*time.Millisecond) {
+			st, oerr := cli.OpenStream()
+			detail := fmt.Sprintf("OpenStream err=%v", oerr)
+			if oerr == nil {
+				_, werr := st.Write([]byte("x"))
+				detail += fmt.Sprintf(", write err=%v", werr)
+			}
+			l.mu.Lock()
+			nsess := len(l.sessions)
+			l.mu.Unlock()
+			col.violation(name, map[string]interface{}{"k": k}, "the listener was closed while a client's handshake was in flight; the handshake then succeeded on the client, and 5 s later "+
+				"its session is still alive although nothing serves it (sessions registered with the closed listener: %d; %s)", nsess, detail)
+		}
+		cli.Close()
+		waitTeardown(cli, 10*time.Second)
+		l.mu.Lock()
+		var left []*Session
+		for sv := range l.sessions {
+			left = append(left, sv)
+		}
+		l.mu.Unlock()
+		for _, sv := range left {
+			sv.Close()
+			waitTeardown(sv, 10*time.Second)
+		}
+		return true
+	}
+	// even k: concurrent Close of one conn
+	conn, err := net.Dial("unix", path)
+	if err != nil {
+		ln.Close()
+		col.inconclusive(name, "dial: "+err.Error())
+		return true
+	}
+	conf, _ := newTestConfig(pairOpt{bufCap: 2 << 20, initTO: 5 * time.Second})
+	cli, err := newSession(conf, conn, true)
+	if err != nil {
+		ln.Close()
+		col.inconclusive(name, "client session: "+err.Error())
+		return true
+	}
+	var srv *Session
+	if !waitUntil(5*time.Second, func() bool {
+		l.mu.Lock()
+		defer l.mu.Unlock()
+		for sv := range l.sessions {
+			srv = sv
+		}
+		return srv != nil
+	}) {
+		cli.Close()
+		ln.Close()
+		col.inconclusive(name, "server session did not register")
+		return true
+	}
+	open1 := func() (net.Conn, bool) {
+		st, err := cli.OpenStream()
+		if err != nil {
+			return nil, false
+		}
+		if _, err := st.Write([]byte("hi")); err != nil {
+			return nil, false
+		}
+		ch := make(chan net.Conn, 1)
+		go func() {
+			c, err := ln.Accept()
+			if err != nil {
+				ch <- nil
+				return
+			}
+			ch <- c
+		}()
+		select {
+		case c := <-ch:
+			return c, c != nil
+		case <-time.After(10 * time.Second):
+			return nil, false
+		}
+	}
+	keep, ok := open1()
+	if !ok {
+		cli.Close()
+		ln.Close()
+		col.inconclusive(name, "first conn did not surface on Accept")
+		return true
+	}
+	iters := 200
+	closers := 2 + rng.Intn(3)
+	var viol string
+	for i := 0; i < iters && viol == ""; i++ {
+		c, ok := open1()
+		if !ok {
+			if srv.IsClosed() {
+				viol = fmt.Sprintf("after %d rounds of closing one conn from %d goroutines at once the session ended although another accepted conn of it is still open and the listener is not closed", i, closers)
+			}
+			break
+		}
+		var start, done sync.WaitGroup
+		start.Add(1)
+		for g := 0; g < closers; g++ {
+			done.Add(1)
+			go func() {
+				defer done.Done()
+				start.Wait()
+				_ = c.Close()
+			}()
+		}
+		start.Done()
+		done.Wait()
+		col.count("extra: conns closed by several goroutines at once", 1)
+	}
+	if viol == "" && srv.IsClosed() {
+		viol = fmt.Sprintf("after closing conns from %d goroutines at once the session ended although another accepted conn of it is still open and the listener is not closed", closers)
+	}
+	col.nontrivial(fmt.Sprintf("extra/concurrent-conn-close/%d", closers))
+	// now the listener and the last conn are closed: the session must end
+	ln.Close()
+	keep.Close()
+	can.reset()
+	if viol == "" && !waitUntil(5*time.Second, func() bool { fenceOnce(5 * time.Second); return srv.IsClosed() }) && can.healthy(300*time.Millisecond) {
+		viol = "listener closed and every accepted conn closed, but the session did not end within 5 s"
+	}
+	cli.Close()
+	waitTeardown(cli, 10*time.Second)
+	srv.Close()
+	waitTeardown(srv, 10*time.Second)
+	if viol != "" {
+		col.violation(name, map[string]interface{}{"k": k, "closers": closers}, "%s", viol)
+	}
+	return true
 }
